@@ -4,9 +4,13 @@ and tools/manifest.d/_not_applicable.json (reasons for unclaimed ones)."""
 import json, os, glob
 ROOT = os.path.dirname(os.path.dirname(os.path.abspath(__file__)))
 D = os.path.join(ROOT, 'tools', 'manifest.d')
+# only fragments the lead has enabled (reviewed, committed, passing on the clean tree) are claimed
+enabled = set(json.load(open(os.path.join(D, '_enabled.json'))))
 checks = []
 for f in sorted(glob.glob(os.path.join(D, 'C*.json'))):
-    checks.append(json.load(open(f)))
+    c = json.load(open(f))
+    if c['property_id'] in enabled:
+        checks.append(c)
 claimed = {c['property_id'] for c in checks}
 props = [json.loads(l)['id'] for l in open(os.path.join(ROOT, 'properties.jsonl'))]
 na_reasons = json.load(open(os.path.join(D, '_not_applicable.json')))
